@@ -1335,13 +1335,12 @@ class Vector():
 		if isinstance(other, Vector):
 			if not self._dtype.nullable and not other.schema().nullable and self._dtype.kind != other.schema().kind:
 				raise SerifTypeError("Cannot concatenate two typesafe Vectors of different types")
-			return Vector(self._underlying + other._underlying,
-				dtype=self._dtype)
+			# dtype is inferred from the concatenated values (never reuse self's dtype:
+			# the appended values may be None or of another kind)
+			return Vector(self._underlying + other._underlying)
 		if isinstance(other, Iterable) and not isinstance(other, (str, bytes, bytearray)):
-			return Vector(self._underlying + tuple(other),
-				dtype=self._dtype)
-		return Vector(self._underlying + (other,),
-				dtype=self._dtype)
+			return Vector(self._underlying + tuple(other))
+		return Vector(self._underlying + (other,))
 
 
 	def __rshift__(self, other):
